@@ -121,26 +121,34 @@ def rule_cli(repo):
     rr = RuleResult('C10.R2', 'command_subset decodes, subsets, re-encodes and writes the bytes unmodified')
     fi = repo.func('commands', 'command_subset')
 
+    from sa.patheval import Stub
+
     class I(Interp):
+        # the collaborators are scripted objects: which variables hold them, and whether intermediate results are named, does not matter
         def on_call(self, text, callee, args, kwargs, node, frame):
-            if text in ('Decoder', 'Encoder'):
-                return Obj(text + 'Stub', {})
+            it = self
+            if text == 'Decoder':
+                def process(interp, a, kw, node, frame):
+                    it.event('decode', repr(a[0]) if a else None, dict((k, repr(v)) for k, v in kw.items()))
+
+                    def subset(interp, a2, kw2, node, frame):
+                        it.event('subset', a2[0] if a2 else kw2.get('subset_indices'))
+                        return Sym('DATA')
+                    return Stub('decoded message', {'subset': subset})
+                return Stub('decoder', {'process': process})
+            if text == 'Encoder':
+                def process(interp, a, kw, node, frame):
+                    it.event('encode', repr(a[0]) if a else None)
+                    return Stub('encoded message', attrs={'serialized_bytes': Sym('BYTES_OUT')})
+                return Stub('encoder', {'process': process})
             if text == 'open':
-                return Obj('File', {})
-            if text == 'ins.read':
-                return Sym('BYTES_IN')
-            if text == 'decoder.process':
-                self.event('decode', repr(args[0]) if args else None, dict((k, repr(v)) for k, v in kwargs.items()))
-                return Obj('Msg', {'__decoded__': True})
-            if text == 'bufr_message.subset':
-                self.event('subset', args[0] if args else None)
-                return Sym('DATA')
-            if text == 'encoder.process':
-                self.event('encode', repr(args[0]) if args else None)
-                return Obj('Msg', {'serialized_bytes': Sym('BYTES_OUT')})
-            if text == 'outs.write':
-                self.event('write', repr(args[0]) if args else None)
-                return None
+                def read(interp, a, kw, node, frame):
+                    return Sym('BYTES_IN')
+
+                def write(interp, a, kw, node, frame):
+                    it.event('write', repr(a[0]) if a else None)
+                    return None
+                return Stub('file', {'read': read, 'write': write})
             return self.NOT_HANDLED
     for text_idx, want in (('0', [0]), ('3,1', [3, 1]), ('0, 0,2', [0, 0, 2]), (' 4 ', [4])):
         it = I(repo, None)
